@@ -30,3 +30,53 @@ package compile
 //@ func (*compiler).panicSyntaxErrorf(c, Ast, format, a)
 //@   modifies *
 //@   callsite py.ExceptionNewf class: arg(0) == py.SyntaxError
+
+// ---- the assembler (C12): positions, sizes, encoding of operands, jump targets ----
+
+//@ func (*pos).SetPos(p, number, newPos) (changed)
+//@   requires nn: p != nil
+//@   modifies p.n, p.p
+//@   ensures pos: p.p == newPos
+//@   ensures num: p.n == uint32(number)
+//@   ensures changed: changed <==> old(p.p) != newPos
+
+//@ func (*pos).Pos(p) (r)
+//@   requires nn: p != nil
+//@   pure
+//@   ensures val: r == p.p
+
+//@ func (*OpArg).Size(o) (r)
+//@   requires nn: o != nil
+//@   pure
+//@   ensures short: o.Arg <= 65535 ==> r == 3
+//@   ensures long: o.Arg > 65535 ==> r == 6
+
+//@ func (*Op).Size(o) (r)
+//@   pure
+//@   ensures one: r == 1
+
+//@ func (*Label).Size(o) (r)
+//@   pure
+//@   ensures zero: r == 0
+
+// what the VM's fetch loop decodes from the bytes is (Op, Arg): low byte first, EXTENDED_ARG carries the high 16 bits
+//@ func (*OpArg).Output(o) (out)
+//@   requires nn: o != nil
+//@   ensures len: len(out) == ite(o.Arg <= 65535, 3, 6)
+//@   ensures short: o.Arg <= 65535 ==> out[0] == uint8(o.Op) && int(out[1]) + 256 * int(out[2]) == int(o.Arg)
+//@   ensures long: o.Arg > 65535 ==> out[0] == vm.EXTENDED_ARG && out[3] == uint8(o.Op) && int(out[4]) + 256 * int(out[5]) + 65536 * int(out[1]) + 16777216 * int(out[2]) == int(o.Arg)
+
+//@ func (*Op).Output(o) (out)
+//@   requires nn: o != nil
+//@   ensures one: len(out) == 1 && out[0] == uint8(o.Op)
+
+//@ func (*JumpAbs).Resolve(o)
+//@   requires nn: o != nil && o.Dest != nil
+//@   modifies o.OpArg
+//@   ensures target: o.OpArg.Arg == o.Dest.pos.p
+
+//@ func (*JumpRel).Resolve(o)
+//@   requires nn: o != nil && o.Dest != nil
+//@   modifies o.OpArg
+//@   ensures target: old(o.pos.p) <= 4294967289 ==> int(o.OpArg.Arg) == int(o.Dest.pos.p) - (int(o.pos.p) + ite(old(o.OpArg.Arg) <= 65535, 3, 6))
+//@   ensures fits: (o.OpArg.Arg <= 65535) == (old(o.OpArg.Arg) <= 65535)
